@@ -125,6 +125,10 @@ class _Worker:
         th.start()
         th.join(timeout)
         if "res" in box:
+            if box["res"].pop("_fatal", False):
+                # the worker exits after reporting (spinning threads cannot be stopped): start a fresh one
+                self.kill()
+                self.start()
             return box["res"], None, ""
         if th.is_alive():
             # watchdog fired: classify
